@@ -78,60 +78,86 @@ def check(prog, run):
         seqsig.order_obligations(prog, run, "R-order", which=("merge", "flatten", "pre"))
 
 
-def _mean_form(prog, fi, e):
-    """True if e (expanded) is mean(X, axis=0) / X.mean(axis=0) / sum(X, axis=0)/len(.)"""
-    x = astq.expand(fi, e)
+REDUCERS = ("numpy.median", "numpy.nanmedian", "numpy.max", "numpy.min", "numpy.amax", "numpy.amin", "numpy.var", "numpy.sum", "numpy.prod",
+            ".median", ".max", ".min", ".var", ".sum", ".prod", "numpy.mean", "numpy.nanmean", ".mean", "numpy.average", "numpy.std", "numpy.nanstd", ".std")
+
+
+def _mean_form(prog, fi, x):
+    """x: expression already expanded at its program point.  (True, how) if x is mean(X, axis=0) / X.mean(axis=0) / sum(X, axis=0)/len(.);
+    (False, how) if it is another recognised reduction; (None, how) if the form is not recognised"""
     if isinstance(x, ast.Call):
         nm = astq.callee_name(prog, fi, x)
         if nm in ("numpy.mean", "numpy.nanmean", ".mean", "numpy.average"):
             ax = astq.kwarg(x, "axis", 1 if not nm.startswith(".") else 0)
-            return isinstance(ax, ast.Constant) and ax.value == 0, nm
+            if isinstance(ax, ast.Constant):
+                return ax.value == 0, f"{nm}(axis={ax.value})"
+            return (False, f"{nm} without axis") if ax is None else (None, astq.src(x, 80))
+        if nm in REDUCERS:
+            return False, astq.src(x, 80)
     if isinstance(x, ast.BinOp) and isinstance(x.op, ast.Div) and isinstance(x.left, ast.Call):
         nm = astq.callee_name(prog, fi, x.left)
         if nm in ("numpy.sum", ".sum", "sum"):
             return True, nm + "/n"
-    return False, astq.src(x, 80)
+    return None, astq.src(x, 80)
+
+
+def _arr_of(prog, fi, c):
+    nm = astq.callee_name(prog, fi, c)
+    if nm.startswith("."):
+        return c.func.value
+    return c.args[0] if c.args else astq.kwarg(c, "a")
 
 
 def stat_structure(prog, run, fi):
     f = rel(prog.mods[fi.mod].path)
+    STD = ("numpy.std", "numpy.nanstd", ".std")
     ctor = [c for c, nm in astq.calls_resolved(prog, fi, lambda n: n.endswith(".MsPoserResult"))]
     if not ctor:
-        run.ob("R-mean", fi.qual, "constructor", False, "no MsPoserResult(...) construction found in merge_results", witness="missing", file=f)
+        run.ob("R-mean", fi.qual, "constructor", None, "no MsPoserResult(...) construction found in merge_results", witness="missing", file=f)
         return
     call = ctor[0]
     for field in ("Fn", "Xi"):
         e = astq.kwarg(call, field)
         if e is None:
-            run.ob("R-mean", fi.qual, field, False, f"{field} not passed to the merged result", witness="missing", file=f, node=call)
+            run.ob("R-mean", fi.qual, field, None, f"{field} not passed by keyword to the merged result", witness="missing", file=f, node=call)
             continue
-        ok, how = _mean_form(prog, fi, e)
-        run.ob("R-mean", fi.qual, field, ok, f"{field} = {how}" if ok else f"{field} is `{how}`, not a mean over the setup axis",
+        ok, how = _mean_form(prog, fi, astq.expr_at(fi, call, e))
+        run.ob("R-mean", fi.qual, field, ok, f"{field} = {how}" if ok else f"{field} is `{how}`" + (", not a mean over the setup axis" if ok is False else ": form not recognised"),
                witness=how, file=f, node=e)
     for field in ("Fn_cov", "Xi_cov"):
         e = astq.kwarg(call, field)
         if e is None:
-            run.ob("R-std", fi.qual, field, False, f"{field} not passed to the merged result", witness="missing", file=f, node=call)
+            run.ob("R-std", fi.qual, field, None, f"{field} not passed by keyword to the merged result", witness="missing", file=f, node=call)
             continue
-        x = astq.expand(fi, e)
-        stds = [n for n in ast.walk(x) if isinstance(n, ast.Call) and astq.callee_name(prog, fi, n) in ("numpy.std", "numpy.nanstd", ".std")]
+        x = astq.expr_at(fi, call, e)
+        isstd = lambda n: isinstance(n, ast.Call) and astq.callee_name(prog, fi, n) in STD
+        stds = [n for n in ast.walk(x) if isstd(n)]
         # dispersion = std(X) / mean(X) of the SAME stacked values
-        okq = False
-        if isinstance(x, ast.BinOp) and isinstance(x.op, ast.Div) and isinstance(x.left, ast.Call) and astq.callee_name(prog, fi, x.left) in ("numpy.std", "numpy.nanstd", ".std"):
+        okq = None
+        if isinstance(x, ast.BinOp) and isinstance(x.op, ast.Div) and isstd(x.left):
             ismean, how = _mean_form(prog, fi, x.right)
-            arr_s = x.left.args[0] if not astq.callee_name(prog, fi, x.left).startswith(".") else x.left.func.value
-            r = astq.expand(fi, x.right)
-            arr_m = (r.args[0] if isinstance(r, ast.Call) and r.args and not astq.callee_name(prog, fi, r).startswith(".") else (r.func.value if isinstance(r, ast.Call) and isinstance(r.func, ast.Attribute) else None))
-            okq = bool(ismean) and arr_m is not None and astq.dump(astq.expand(fi, arr_s)) == astq.dump(astq.expand(fi, arr_m))
-        run.ob("R-std", fi.qual, f"{field} = std / mean of the same per-setup values", okq, f"`{astq.src(x, 90)}`", witness=astq.src(x, 70), file=f, node=e)
+            arr_s = _arr_of(prog, fi, x.left)
+            arr_m = _arr_of(prog, fi, x.right) if isinstance(x.right, ast.Call) else None
+            if ismean is False:
+                okq = False
+            elif ismean and arr_m is not None and arr_s is not None:
+                okq = astq.dump(arr_s) == astq.dump(arr_m)
+        elif isstd(x):
+            okq = False          # a bare standard deviation: not divided by the mean
+        elif isinstance(x, ast.BinOp) and isinstance(x.op, (ast.Mult, ast.Add, ast.Sub)) and stds:
+            okq = False          # std combined with something else than a division by the mean
+        run.ob("R-std", fi.qual, f"{field} = std / mean of the same per-setup values", okq, f"`{astq.src(x, 120)}`", witness=astq.src(x, 70), file=f, node=e)
         if not stds:
-            run.ob("R-std", fi.qual, field, False, f"{field} = `{astq.src(x, 80)}` does not contain a standard deviation", witness="no-std", file=f, node=e)
+            red = [n for n in ast.walk(x) if isinstance(n, ast.Call) and astq.callee_name(prog, fi, n) in REDUCERS]
+            run.ob("R-std", fi.qual, field, False if red else None, f"{field} = `{astq.src(x, 80)}` does not contain a standard deviation", witness="no-std", file=f, node=e)
             continue
         for sc in stds:
             nm = astq.callee_name(prog, fi, sc)
             ddof = astq.kwarg(sc, "ddof")
             ax = astq.kwarg(sc, "axis", 0 if nm.startswith(".") else 1)
             ok = (ddof is None or (isinstance(ddof, ast.Constant) and ddof.value == 0)) and isinstance(ax, ast.Constant) and ax.value == 0
+            if ok is False and not ((ddof is None or isinstance(ddof, ast.Constant)) and (ax is None or isinstance(ax, ast.Constant))):
+                ok = None
             why = f"{field}: `{astq.src(sc, 70)}`"
             run.ob("R-std", fi.qual, field, ok, why if ok else why + " is not the population std over axis 0", witness=astq.src(sc, 70), file=f, node=sc)
 
